@@ -129,3 +129,50 @@ func checkSliceCoverage(c *Ctx, r *Run, rule string, fns []*ssa.Function) {
 		}
 	}
 }
+
+// checkPartyLoops: every loop over a participant list walks the whole list. Instances: index loops whose bound is
+// len(X) with X of type party.IDSlice / []party.ID; a violation is X being a sub-slice (x[1:], x[:t+1]) of a list.
+func checkPartyLoops(c *Ctx, r *Run, rule string, fns []*ssa.Function) {
+	isIDList := func(t types.Type) bool {
+		sl, ok := t.Underlying().(*types.Slice)
+		if !ok {
+			return false
+		}
+		n := namedOf(sl.Elem())
+		return n != nil && n.Obj().Name() == "ID" && n.Obj().Pkg() != nil && n.Obj().Pkg().Name() == "party"
+	}
+	for _, fn := range fns {
+		k := 0
+		for _, b := range fn.Blocks {
+			if len(b.Instrs) == 0 || !blockInLoop(b) {
+				continue
+			}
+			iff, ok := b.Instrs[len(b.Instrs)-1].(*ssa.If)
+			if !ok {
+				continue
+			}
+			bo, ok := iff.Cond.(*ssa.BinOp)
+			if !ok || bo.Op != token.LSS {
+				continue
+			}
+			call, ok := stripConv(bo.Y).(*ssa.Call)
+			if !ok {
+				continue
+			}
+			bi, ok := call.Call.Value.(*ssa.Builtin)
+			if !ok || bi.Name() != "len" || !isIDList(call.Call.Args[0].Type()) {
+				continue
+			}
+			list := resolveLoad(call.Call.Args[0])
+			k++
+			r.Analysed(c.FuncName(fn))
+			sub := ""
+			if sl, ok := list.(*ssa.Slice); ok && (sl.Low != nil || sl.High != nil) {
+				sub = path(sl)
+			}
+			r.Check(rule, fmt.Sprintf("%s|party loop #%d", c.FuncName(fn), k), c.Pos(iff.Cond.Pos()), sub == "",
+				"the loop walks the whole participant list "+path(list),
+				"the loop walks only the sub-slice "+sub+" of a participant list: the per-party work (verification, share, table entry, transcript item) is skipped for the parties cut off")
+		}
+	}
+}
